@@ -1,0 +1,19 @@
+//go:build verif
+
+// Contracts for govc (comment-only file; see /verif/DESIGN.md section 3).
+// Generated skeleton (tools/gen_zk_contracts.py): nil-safety of the verifier side for arbitrary decoded proofs.
+package zkaffp
+
+//@ func (*Proof).IsValid
+//@   nopanic[C05]
+//@   inline
+//@   requires public.Kv != nil && public.Dv != nil && public.Fp != nil && public.Xp != nil && pkok(public.Prover) && pkok(public.Verifier) && pedok(public.Aux)
+
+//@ func (*Proof).Verify
+//@   nopanic[C05]
+//@   requires group != nil && hash != nil && hash.h != nil && public.Kv != nil && public.Dv != nil && public.Fp != nil && public.Xp != nil && pkok(public.Prover) && pkok(public.Verifier) && pedok(public.Aux)
+
+//@ func challenge
+//@   nopanic[C05]
+//@   inline
+//@   requires hash != nil && hash.h != nil && group != nil && public.Kv != nil && public.Dv != nil && public.Fp != nil && public.Xp != nil && pkok(public.Prover) && pkok(public.Verifier) && pedok(public.Aux) && commitment != nil
